@@ -118,11 +118,13 @@ pub struct Interner<'a> {
     defs: &'a [Def],
     ids: HashMap<String, u32>,
     pub types: Vec<Value>,
+    /// every closed instantiation (definition index, arguments) that was interned
+    pub insts: Vec<(usize, Vec<Src>)>,
 }
 
 impl<'a> Interner<'a> {
     pub fn new(defs: &'a [Def]) -> Self {
-        Interner { defs, ids: HashMap::new(), types: vec![] }
+        Interner { defs, ids: HashMap::new(), types: vec![], insts: vec![] }
     }
 
     fn alloc(&mut self, key: String) -> Result<u32, u32> {
@@ -177,6 +179,7 @@ impl<'a> Interner<'a> {
             Src::Param(_) => panic!("open type"),
             Src::BoxT(_) => unreachable!(),
             Src::App(di, args) => {
+                self.insts.push((*di, args.clone()));
                 let d = self.defs[*di].clone();
                 let mut params = vec![];
                 for (i, (n, skipped)) in d.params.iter().enumerate() {
@@ -323,6 +326,15 @@ pub fn build(p: &Program) -> (Value, Vec<u32>) {
     let mut it = Interner::new(&p.defs);
     let roots: Vec<u32> = p.roots.iter().map(|r| it.intern(r)).collect();
     (it.finish(), roots)
+}
+
+pub fn build_with_insts(p: &Program) -> (Value, Vec<(usize, Vec<Src>)>) {
+    let mut it = Interner::new(&p.defs);
+    for r in &p.roots {
+        it.intern(r);
+    }
+    let insts = it.insts.clone();
+    (it.finish(), insts)
 }
 
 // ---------------------------------------------------------------------------
